@@ -229,6 +229,9 @@ def _bootstrap_index_attr(ctx: Context) -> tuple[str, ast.Assign, str]:
 def r2_rl_bootstrap(ctx: Context, product_decided: bool = False) -> None:
     prog = ctx.prog
     gns = ctx.func(f"{RL}.get_next_sampler")
+    from ..util import require_readable
+    _upd = prog.lookup_method(prog.find_class("RLScheduler"), "update")
+    require_readable(prog, gns, *([_upd] if _upd is not None else []))
     g = CFG(gns.node)
     rets = returns_of(gns)
     ctx.floor("R2", "return in RLScheduler.get_next_sampler", len(rets), 1)
